@@ -630,7 +630,19 @@ def ev_b2f(d):
     line = "C20 b2f %s %s %d %s" % (sfr(Fr(mn)), sfr(Fr(mx)), nb, d["bits"])
     tag = "b2f/nbits=%d/%s" % (nb, d.get("cat", "rand"))
     try:
-        binary.bin2float(mn, mx, nb)(rec)(numpy.array(b, dtype=int) if d.get("np") else list(b), *EXTRA_ARGS, **EXTRA_KARGS)
+        rep = d.get("rep")
+        if rep is None:
+            indiv = numpy.array(b, dtype=int) if d.get("np") else list(b)
+        elif rep == "tuple":
+            indiv = tuple(b)
+        elif rep == "bool":
+            indiv = [bool(x) for x in b]
+        elif rep.startswith("array:"):
+            import array as _array
+            indiv = _array.array(rep[6:], b)
+        else:                                # a numpy dtype name: the bits of narrow fixed-width / boolean arrays
+            indiv = numpy.array(b, dtype=rep)
+        binary.bin2float(mn, mx, nb)(rec)(indiv, *EXTRA_ARGS, **EXTRA_KARGS)
     except ZeroDivisionError:
         return Case(d, [line], ["error"], None, tag="b2f/error", nontrivial=False)
     got = list(rec.got)
@@ -1332,6 +1344,19 @@ def gen_b2f(rng, nrand, ex_bits):
         else:
             b, cat = [rng.randint(0, 1) for _ in range(nb * ne + extra)], "rand"
         yield {"k": "b2f", "min": mn, "max": mx, "nbits": nb, "bits": bstr(b), "cat": cat}
+    # (bits are the INTEGERS 0/1: python / numpy booleans print as 'True'/'False' and make the unchanged decoder raise
+    #  ValueError in int(..., 2) - an observation, outside "binary decoding" of a 0/1 string)
+    # representations of the bit string: narrow numpy integer arrays (a decoder that accumulates in the dtype
+    # of the genes wraps at the type's width - seeded change C20-r8m2), tuples, python bools, array.array
+    reps = ["int8", "uint8", "int16", "uint16", "int32", "uint32", "int64", "uint64", "tuple", "array:b", "array:B",
+            "array:h", "array:i", "array:q"]
+    for i in range(max(30, nrand // 4)):
+        rep = reps[i % len(reps)]
+        nb = [7, 8, 9, 15, 16, 17, 31, 32, 33, 12, 24, 40][(i // len(reps)) % 12]
+        ne = rng.randint(1, 3)
+        mn, mx = ranges[i % 4]
+        b = [1] * nb * ne if i % 3 == 0 else [1] + [rng.randint(0, 1) for _ in range(nb * ne - 1)]
+        yield {"k": "b2f", "min": mn, "max": mx, "nbits": nb, "bits": bstr(b), "cat": "rep/" + rep, "rep": rep}
 
 
 def rot2(c, s):
